@@ -41,7 +41,11 @@ BlockMuts(g, i) ==
   {[f |-> n, b |-> i, v |-> 0] : n \in {"reserved", "bhcrc"}}
   \cup {[f |-> n, b |-> i, v |-> v] : n \in {"hpad", "bpad"}, v \in 1..4}
   \cup (IF g.check \in {1, 4} THEN {[f |-> "check", b |-> i, v |-> 0]} ELSE {})
-  \cup {[f |-> "fid", b |-> i, v |-> v] : v \in {3, 4, 9}}
+  \* 289 = 0x121; 1000001.. are symbolic for ids beyond 32 bits whose low bits equal 0x21 (the harness writes
+  \* 2^32 + 0x21, 2^40 + 0x21, 2^62 + 0x21): a narrowed id must not pass for LZMA2
+  \cup {[f |-> "fid", b |-> i, v |-> v] : v \in {3, 4, 9, 289, 1000001, 1000002, 1000003}}
+  \* sizes that are right modulo 2^32 (the harness adds 2^32 to the correct value)
+  \cup {[f |-> n, b |-> i, v |-> 0] : n \in ({"idxUnpaddedBig", "idxUnpackedBig"} \cup (IF b.hasP THEN {"pdeclBig"} ELSE {}) \cup (IF b.hasU THEN {"udeclBig"} ELSE {}))}
   \cup {[f |-> "nfilters", b |-> i, v |-> 2]}
   \cup {[f |-> "propsLen", b |-> i, v |-> v] : v \in {0, 2}}
   \cup (IF b.hasP THEN {[f |-> "pdecl", b |-> i, v |-> v] : v \in {b.pdecl + 1} \cup (IF b.pdecl > 0 THEN {b.pdecl - 1} ELSE {})} ELSE {})
@@ -78,6 +82,10 @@ Mutate(g, m) ==
     [] m.f = "propsLen" -> [g EXCEPT !.blocks[m.b].propsLen = m.v]
     [] m.f = "pdecl"   -> [g EXCEPT !.blocks[m.b].pdecl = m.v]
     [] m.f = "udecl"   -> [g EXCEPT !.blocks[m.b].udecl = m.v]
+    [] m.f = "pdeclBig" -> [g EXCEPT !.blocks[m.b].pdecl = @ + 1000000]
+    [] m.f = "udeclBig" -> [g EXCEPT !.blocks[m.b].udecl = @ + 1000000]
+    [] m.f = "idxUnpaddedBig" -> [g EXCEPT !.idxRecs[m.b] = <<@[1] + 1000000, @[2]>>]
+    [] m.f = "idxUnpackedBig" -> [g EXCEPT !.idxRecs[m.b] = <<@[1], @[2] + 1000000>>]
     [] m.f = "idxUnpadded" -> [g EXCEPT !.idxRecs[m.b] = <<m.v, @[2]>>]
     [] m.f = "idxUnpacked" -> [g EXCEPT !.idxRecs[m.b] = <<@[1], m.v>>]
 
